@@ -115,7 +115,7 @@ def parse_body(kind, body):
 
 
 def case_job(job):
-    (idx, ns, pairs, seed, scratch) = job
+    (idx, ns, pairs, seed, scratch, rename) = job
     warnings.simplefilter("ignore")
     from numbers_parser import Document
     from numbers_parser.generated import TSCEArchives_pb2 as TSCE
@@ -190,6 +190,11 @@ def case_job(job):
                         e["sq"] = snames.index(parts[0]) + 1 if parts[0] in snames else -1
             events.append(e)
     observe(doc, "open")
+    if rename:
+        # Refs.tla Rename(x, nm): the names a reference is printed with are the names as they are NOW
+        (x, nm) = rename
+        doc.sheets[x[0] - 1].tables[x[1] - 1].name = TABLE[nm]
+        observe(doc, "renamed")
     try:
         doc.save(path)
         observe(Document(path), "reopened")
@@ -232,18 +237,22 @@ def run(ctx):
     ctx.assumptions = ["tables have no header rows/columns, so bodies are printed in A1 form (header-label bodies: see DESIGN.md, not judged)",
                        "mixed absolute/relative range ends are stored the way the library's own reader and writer agree on"]
     ctx.stage("model-check")
-    cases = []
+    cases, renames = [], {}
 
     def handle(line):
-        m = re.match(r'^"N (<<.*>>) <<(\d+), (\d+)>> <<(\d+), (\d+)>>"$', line)
+        m = re.match(r'^"([NM]) (<<.*>>) <<(\d+), (\d+)>> <<(\d+), (\d+)>>(?: <<(\d+), (\d+)>> (\w))?"$', line)
         if m:
-            sheets = re.findall(r"<<((?:\\?\"\w\\?\"(?:, )?)+)>>", m.group(1))
+            sheets = re.findall(r"<<((?:\\?\"\w\\?\"(?:, )?)+)>>", m.group(2))
             ns = [re.findall(r"(\w)", s) for s in sheets]
-            cases.append((ns, (int(m.group(2)), int(m.group(3))), (int(m.group(4)), int(m.group(5)))))
+            if m.group(1) == "N":
+                cases.append((ns, (int(m.group(3)), int(m.group(4))), (int(m.group(5)), int(m.group(6)))))
+            else:
+                renames.setdefault(json.dumps(ns), set()).add(((int(m.group(7)), int(m.group(8))), m.group(9)))
             return True
         return False
     ctx.tlc("Refs", rf_cfg(emit=True), what="MC_Refs[1..3 sheets x 1..2 tables, names A B C]", stream_to=handle, timeout=1800)
     ctx.tlc("Refs", rf_cfg("PrefixDropped"), what="Bug_PrefixDropped", expect_violation="ExactlyTheTarget", count=False)
+    ctx.tlc("Refs", rf_cfg("StaleUniqueCache"), what="Bug_StaleUniqueCache", expect_violation="ExactlyTheTarget", count=False)
     if len(cases) < 1000:
         raise Machinery("only %d namespace cases parsed" % len(cases))
     byns = {}
@@ -254,9 +263,16 @@ def run(ctx):
     ctx.extra["namespaces_from_tlc"] = len(keys)
     use = keys if not q else rng.sample(keys, 60)
     jobs = []
+    nren = 0
     for i, k in enumerate(use):
         pairs = byns[k]
-        jobs.append((i, json.loads(k), pairs, ctx.seed * 19 + i, ctx.scratch))
+        rn = sorted(renames.get(k, ()))
+        # every namespace once as built, and with one (quick) or every (thorough) rename TLC found for it
+        jobs.append((i, json.loads(k), pairs, ctx.seed * 19 + i, ctx.scratch, None))
+        for j, r in enumerate(rn if not q else rng.sample(rn, min(1, len(rn)))):
+            jobs.append((100000 + i * 100 + j, json.loads(k), pairs, ctx.seed * 19 + i, ctx.scratch, r))
+            nren += 1
+    ctx.extra["rename_cases"] = nren
     # larger namespaces: up to 4 sheets x 4 tables, names drawn with repetition across sheets
     for i in range(6 if q else 120):
         ns = []
@@ -264,7 +280,12 @@ def run(ctx):
             ns.append(rng.sample(["A", "B", "C"], rng.randint(1, 3)))
         tabs = [(s + 1, t + 1) for s in range(len(ns)) for t in range(len(ns[s]))]
         pairs = [(h, t) for h in tabs for t in tabs]
-        jobs.append((10000 + i, ns, rng.sample(pairs, min(len(pairs), 12)), ctx.seed * 23 + i, ctx.scratch))
+        ren = None
+        if i % 2:
+            x = rng.choice(tabs)
+            free = [n for n in ["A", "B", "C"] if n not in ns[x[0] - 1]]
+            ren = (x, rng.choice(free)) if free else None
+        jobs.append((10000 + i, ns, rng.sample(pairs, min(len(pairs), 12)), ctx.seed * 23 + i, ctx.scratch, ren))
     ctx.stage("replay")
     res = fixtures.pmap(case_job, jobs, ctx.workers, chunksize=2)
     events = [e for lst in res for e in lst]
